@@ -72,11 +72,18 @@ def _mk_rec(name):
   base = getattr(np.random.RandomState, name)
 
   def rec(self, *a, **k):
-    out = base(self, *a, **k)
+    # only top-level draws are recorded (choice() calls randint() internally)
+    depth = self.__dict__.get("_depth", 0)
+    self.__dict__["_depth"] = depth + 1
     try:
-      self.draws.append((name, _argsum(a, k), digest(out)))
-    except AttributeError:   # object rebuilt by copy/pickle without __init__
-      pass
+      out = base(self, *a, **k)
+    finally:
+      self.__dict__["_depth"] = depth
+    if depth == 0:
+      try:
+        self.draws.append((name, _argsum(a, k), digest(out)))
+      except AttributeError:   # object rebuilt by copy/pickle without __init__
+        pass
     return out
   rec.__name__ = name
   return rec
